@@ -26,8 +26,9 @@ RULES = {
     "R5": "output transforms: clip(expit(Mu), 0.01, 0.99); repeat(1/precision, data.size)",
     "R6": "stacked/averaged helpers: row i <- get_theta(i).<same-named predict>(screen), i in range(n_thetas); mean = sum / n_thetas",
     "R7": "the derived screen attributes this property's code relies on (size, treatment_arity) have their documented definitions in ScreenBase and every override",
+    "R8": "the sample container the code indexes (ThetaHolder.add_theta / get_theta) refuses out-of-range indices and returns the i-th added sample (C10.R3 run here)",
 }
-MIN = {"R1": 8, "R2": 3, "R3": 2, "R4": 5, "R5": 4, "R6": 5, "R7": 2}
+MIN = {"R1": 8, "R2": 3, "R3": 2, "R4": 5, "R5": 4, "R6": 5, "R7": 2, "R8": 3}
 TRUSTED = ["numpy: advanced indexing copies; negative index -1 selects the last row (which the helper then zeroes)",
            "expit/clip are element-wise"]
 TECHNIQUE = "freshness analysis over the predict call closure, polynomial normal forms with symmetry/substitution checks"
@@ -468,7 +469,12 @@ def r_derived(ctx):
     common.derived_attributes(ctx, "R7", ['size', 'treatment_arity'])
 
 
-RULE_FUNCS = [r1, r2, r3, r4, r5, r6, r_derived]
+def r_holder(ctx):
+    from . import C10
+    ctx.borrow(C10.r3, "R8")
+
+
+RULE_FUNCS = [r1, r2, r3, r4, r5, r6, r_derived, r_holder]
 
 
 def _rep(a, b):
